@@ -11,7 +11,7 @@ use bumpalo::boxed::Box as BBox;
 use bumpalo::collections::CollectIn;
 fn use_ref<T: ?Sized>(_: &T) {}
 pub fn probe() {
-    let mut bump = Bump::new();
+    let mut bump = @NEW@;
 """
 
 MK = {
@@ -57,8 +57,22 @@ MK = {
 }
 DERIVED = {"Drain", "Splice", "DrainFilter", "StrDrain"}
 
-def render(prog):
-    lines = [HEADER]
+# kinds that exist for every MIN_ALIGN (the collections and Box are tied to the default arena type)
+ANY_ALIGN_KINDS = {"Ref", "Slice", "Str", "RawIter", "ChunkIter", "ChunkItem", "AllocWith", "TryAllocOk", "AllocTryWith", "SliceFillIter"}
+NEW_DEFAULT = "Bump::new()"
+
+def arena_variants(prog):
+    """the arena expressions a program is rendered with: the default one, and -- when nothing in the program is tied to
+    the default arena type -- one with a non-default minimum alignment (the model's verdict does not depend on it)"""
+    out = [NEW_DEFAULT]
+    if all(st["s"] != "mk" or st["k"] in ANY_ALIGN_KINDS for st in prog):
+        out.append("Bump::<8>::with_min_align()")
+        if any(st["s"] in ("sendarena", "sharearena", "droparena") for st in prog):
+            out += ["Bump::<2>::with_min_align()", "Bump::<16>::with_min_align_and_capacity(64)"]
+    return out
+
+def render(prog, new=NEW_DEFAULT):
+    lines = [HEADER.replace("@NEW@", new)]
     n = 0
     kinds = {}
     for st in prog:
@@ -122,9 +136,16 @@ def compile_probe(args):
             pass
     return idx, rc == 0, sorted(codes), (out[-500:] if other else "")
 
-def run_c05(tier, seed):
+THREAD_STMTS = {"sendarena", "sharearena", "sendtok", "synctok"}
+
+def run_c20(tier, seed):
+    """C20's compile-time half: "an idle arena can be moved to another thread and used or dropped there" (and is never
+    shared): the programs of Borrow.tla that contain a thread statement, for every arena variant."""
+    return run_c05(tier, seed, only_threads=True)
+
+def run_c05(tier, seed, only_threads=False):
     t0 = time.time()
-    bindir = build_harness("dbg")
+    bindir = build_crate("dbg")
     depsdir = os.path.join(bindir, "deps")
     rlibs = sorted(glob.glob(os.path.join(depsdir, "libbumpalo-*.rlib")), key=os.path.getmtime)
     if not rlibs:
@@ -134,6 +155,8 @@ def run_c05(tier, seed):
     if a2:
         API2[:] = ["--extern", "allocator_api2=" + a2[-1]]
     cfgs = ["Borrow_quick", "Borrow_quick1", "Borrow_quick2", "Borrow_quick3"] if tier == "quick" else ["Borrow_thorough"]
+    if only_threads:
+        cfgs = ["Borrow_quick", "Borrow_quick1"]
     cfg = "+".join(cfgs)
     probes = []
     r = None
@@ -154,7 +177,10 @@ def run_c05(tier, seed):
         if key in seen:
             continue
         seen.add(key)
-        progs.append((t[1], t[2]))
+        if only_threads and not any(st["s"] in THREAD_STMTS for st in t[1]):
+            continue
+        for new in arena_variants(t[1]):
+            progs.append((t[1], t[2], new))
     # cache by rlib content + probe set
     h = hashlib.sha256(open(rlib, "rb").read() + json.dumps(progs, sort_keys=True).encode() +
                        open(__file__.replace(".pyc", ".py"), "rb").read()).hexdigest()[:32]
@@ -162,7 +188,7 @@ def run_c05(tier, seed):
     if c is None:
         outdir = os.path.join(WORK, "probes-%d" % os.getpid())
         os.makedirs(outdir, exist_ok=True)
-        jobs = [(i, render(p), depsdir, rlib, outdir) for i, (p, _) in enumerate(progs)]
+        jobs = [(i, render(p, new), depsdir, rlib, outdir) for i, (p, _, new) in enumerate(progs)]
         res = {}
         with cf.ThreadPoolExecutor(max_workers=NCPU) as ex:
             for idx, ok, codes, other in ex.map(compile_probe, jobs):
@@ -173,7 +199,7 @@ def run_c05(tier, seed):
     fails, samples, tool = [], [], None
     agree = 0
     rejected = 0
-    for i, (p, reason) in enumerate(progs):
+    for i, (p, reason, new) in enumerate(progs):
         ok, codes, other = c["res"][str(i)]
         if other:
             tool = "rustc failed without an error code on probe %d: %s" % (i, other)
@@ -187,13 +213,18 @@ def run_c05(tier, seed):
         if model_ok == ok:
             agree += 1
             if len(samples) < 4 and (i % 997 == 3 or (not ok and len(samples) < 2)):
-                samples.append(dict(program=p, model=reason, rustc="accepts" if ok else "rejects " + ",".join(codes)))
+                samples.append(dict(program=p, arena=new, model=reason, rustc="accepts" if ok else "rejects " + ",".join(codes)))
             continue
         formula = "MisuseMustBeRejected" if not model_ok else "OrdinaryPatternMustCompile"
-        fails.append(dict(property="C05", formula=formula, op=" ".join(st["s"] + (":" + st["k"] if st["k"] else "") + (str(st["t"]) if st["t"] else "") for st in p),
+        if only_threads:
+            formula = "ArenaNeverSharedBetweenThreads" if not model_ok else "IdleArenaMovesBetweenThreads"
+        fails.append(dict(property="C20" if only_threads else "C05", formula=formula, op=new + ": " + " ".join(st["s"] + (":" + st["k"] if st["k"] else "") + (str(st["t"]) if st["t"] else "") for st in p),
                           p=i, i=-1, ma=0, witness=dict(model=reason, rustc_ok=ok, codes=codes), source="Borrow", gen=cfg, profile="dbg",
-                          driver="rustc", _prog=dict(statements=p, rust=render(p))))
-    return dict(name="borrow", fails=fails, tool_error=tool, samples=samples, states=r["distinct"], transitions=r["generated"],
+                          driver="rustc", _prog=dict(statements=p, arena=new, rust=render(p, new))))
+    return dict(name="borrow-threads" if only_threads else "borrow", fails=fails, tool_error=tool, samples=samples, states=r["distinct"], transitions=r["generated"],
                 traces=len(progs), counts=dict(probes=len(progs), agree=agree, rustc_rejected=rejected),
                 summary="%d probe programs from Borrow.tla compiled against the working tree; %d agree" % (len(progs), agree),
                 wall=time.time() - t0)
+
+run_c05.compile_only = True
+run_c20.compile_only = True
